@@ -68,6 +68,83 @@ theorem cleanup_window_keeps_fresh (st : St) (mid : List MidOp) (h : Inv st) :
       st1.entries.filter (fun e => !(decide (e.key ∈ expiredKeys st) && decide (e.expires < st1.now))) :=
   Rv.Lemmas.StoreEvict.cleanup_window_keeps_fresh st mid h
 
+/-! #### eviction with a window between the scan and the removal loop
+
+  `cacheJanitor.evict` collects and sorts its candidates FIRST (in `st`); other
+  clients may then store, revalidate, delete or read (`mid`); THEN the removal
+  loop runs over the stale candidate list, reading the live size before every
+  candidate.  That is `evictLoop (target limit) skip (sortDesc st.now st.entries)
+  (mid.foldl midStep st) []`, for arbitrary `mid`.  The removed list records the
+  keys the loop called `removeEntry` on (as the implementation's `evictions`
+  counter does), whether or not something was still stored under them. -/
+
+/-- the size is already at or below the target when the removal loop starts,
+    for instance because somebody else deleted entries in the window: nothing is
+    removed ("stopping as soon as the target is reached", whoever reached it). -/
+theorem evict_window_noop_at_target (st : St) (mid : List MidOp) (limit : Int) (skip : Nat → Bool)
+    (h : Inv st) (hle : (mid.foldl midStep st).byteSize ≤ target limit) :
+    evictLoop (target limit) skip (sortDesc st.now st.entries) (mid.foldl midStep st) [] =
+      (mid.foldl midStep st, []) :=
+  Rv.Lemmas.StoreEvict.evict_window_noop_at_target st mid limit skip h hle
+
+/-- the loop runs down to the target as measured on the LIVE size (window stores
+    included), or it has tried every scanned entry whose lock it can take, and
+    nothing is stored under these keys any more. -/
+theorem evict_window_stops_or_exhausts (st : St) (mid : List MidOp) (limit : Int) (skip : Nat → Bool)
+    (h : Inv st) :
+    let r := evictLoop (target limit) skip (sortDesc st.now st.entries) (mid.foldl midStep st) []
+    r.1.byteSize ≤ target limit ∨
+    ∀ c ∈ sortDesc st.now st.entries, skip c.key = false → c.key ∈ r.2 ∧ lookup r.1.entries c.key = none :=
+  Rv.Lemmas.StoreEvict.evict_window_stops_or_exhausts st mid limit skip h
+
+/-- it never removes a candidate once the size is at or below the target: every
+    removal `k` (not only the last) was decided in a state, the state after the
+    window with the earlier removals `ks` applied in order, whose live size was
+    still above the target. -/
+theorem evict_window_minimal (st : St) (mid : List MidOp) (limit : Int) (skip : Nat → Bool)
+    (h : Inv st) (ks : List Nat) (k : Nat) (rest : List Nat)
+    (hk : (evictLoop (target limit) skip (sortDesc st.now st.entries) (mid.foldl midStep st) []).2 =
+      ks ++ k :: rest) :
+    (ks.foldl (fun s k' => (removeEntry s k').1) (mid.foldl midStep st)).byteSize > target limit :=
+  Rv.Lemmas.StoreEvict.evict_window_minimal st mid limit skip h ks k rest hk
+
+/-- the same in the form of `evict_minimal`: the size after the window minus
+    what the earlier removals freed THERE (a candidate deleted in the window
+    frees nothing, one overwritten in the window frees its new size). -/
+theorem evict_window_minimal_freed (st : St) (mid : List MidOp) (limit : Int) (skip : Nat → Bool)
+    (h : Inv st) (ks : List Nat) (k : Nat) (rest : List Nat)
+    (hk : (evictLoop (target limit) skip (sortDesc st.now st.entries) (mid.foldl midStep st) []).2 =
+      ks ++ k :: rest) :
+    (mid.foldl midStep st).byteSize - freed (mid.foldl midStep st).entries ks > target limit :=
+  Rv.Lemmas.StoreEvict.evict_window_minimal_freed st mid limit skip h ks k rest hk
+
+/-- every removed key was among the scanned candidates (and its lock could be
+    taken) … -/
+theorem evict_window_only_scanned (st : St) (mid : List MidOp) (limit : Int) (skip : Nat → Bool)
+    (h : Inv st) :
+    ∀ k ∈ (evictLoop (target limit) skip (sortDesc st.now st.entries) (mid.foldl midStep st) []).2,
+      k ∈ (sortDesc st.now st.entries).map (·.key) ∧ skip k = false :=
+  Rv.Lemmas.StoreEvict.evict_window_only_scanned st mid limit skip h
+
+/-- … so an entry written in the window under a NEW key (or under a key whose
+    lock is held) is never removed by this eviction, however large it is.  (An
+    entry written in the window under a SCANNED key has no such protection: the
+    loop removes by key, see the last example below.) -/
+theorem evict_window_keeps_unscanned (st : St) (mid : List MidOp) (limit : Int) (skip : Nat → Bool)
+    (h : Inv st) :
+    ∀ e ∈ (mid.foldl midStep st).entries, ((∀ e0 ∈ st.entries, e0.key ≠ e.key) ∨ skip e.key = true) →
+      e ∈ (evictLoop (target limit) skip (sortDesc st.now st.entries) (mid.foldl midStep st) []).1.entries :=
+  Rv.Lemmas.StoreEvict.evict_window_keeps_unscanned st mid limit skip h
+
+/-- the removed keys, and only they, are gone afterwards; counters stay exact,
+    so the closing `BytesCached.Set(size)` is a no-op. -/
+theorem evict_window_preserves (st : St) (mid : List MidOp) (limit : Int) (skip : Nat → Bool)
+    (h : Inv st) :
+    let r := evictLoop (target limit) skip (sortDesc st.now st.entries) (mid.foldl midStep st) []
+    Inv r.1 ∧ { r.1 with mBytes := r.1.byteSize } = r.1 ∧
+    r.1.entries = (mid.foldl midStep st).entries.filter (fun e => !r.2.contains e.key) :=
+  Rv.Lemmas.StoreEvict.evict_window_preserves st mid limit skip h
+
 /-- a changed limit governs the following cycle and store. -/
 theorem limit_change_governs (st : St) (n : Int) :
     (setLimit st n).cfgLimit = n ∧ (setLimit st n).limit = n ∧
@@ -76,5 +153,23 @@ theorem limit_change_governs (st : St) (n : Int) :
 
 example : target 1000 = 800 := by decide
 example : (evict (run [.store 0 1 400 50 .none, .shift 100, .store 1 2 400 50 .none, .shift 100, .store 2 3 400 50 .none] (init .mem 5000 5000 [0, 1, 2])) 1000 (fun _ => false)).2 = [0] := by decide
+
+/-- three entries of 400 (keys 0, 1, 2 from least to most recently used), limit 1000, target 800. -/
+private def st3 : St :=
+  run [.store 0 1 400 50 .none, .shift 100, .store 1 2 400 50 .none, .shift 100, .store 2 3 400 50 .none]
+    (init .mem 5000 5000 [0, 1, 2, 3])
+
+private def windowed (st : St) (mid : List MidOp) (limit : Int) : List (Nat × Nat) × Int × List Nat :=
+  let r := evictLoop (target limit) (fun _ => false) (sortDesc st.now st.entries) (mid.foldl midStep st) []
+  (r.1.entries.map (fun e => (e.key, e.ver)), r.1.byteSize, r.2)
+
+-- nothing in the window: one victim, as above
+example : windowed st3 [] 1000 = ([(2, 3), (1, 2)], 800, [0]) := by decide
+-- a window store of 600 under a new key pushes the size to 1800: all three candidates go, the new entry stays
+example : windowed st3 [.store 3 9 600 50 .none] 1000 = ([(3, 9)], 600, [0, 1, 2]) := by decide
+-- a window delete (of an entry that is not even the first candidate) reaches the target: no-op
+example : windowed st3 [.delete 1] 1000 = ([(2, 3), (0, 1)], 800, []) := by decide
+-- a fresh version written in the window under a scanned key is evicted on the strength of the stale scan
+example : windowed st3 [.delete 0, .store 0 8 300 50 .none] 1000 = ([(2, 3), (1, 2)], 800, [0]) := by decide
 
 end Rv.Props.C13
